@@ -418,7 +418,7 @@ func TestC06Collector(t *testing.T) {
 // ---------------------------------------------------------------- index level
 
 func c06IndexSorts() [][]string {
-	return [][]string{{"_id"}, {"-_id"}, {"k", "_id"}, {"-k", "_id"}, {"n", "-_id"}, {"-n", "_id"}, {"d", "_id"}, {"-_score", "_id"}, {"_score", "-_id"}, {"b", "k", "_id"}}
+	return [][]string{{"_id"}, {"-_id"}, {"k", "_id"}, {"-k", "_id"}, {"n", "-_id"}, {"-n", "_id"}, {"d", "_id"}, {"-d", "_id"}, {"d", "-_id"}, {"-_score", "_id"}, {"_score", "-_id"}, {"b", "k", "_id"}}
 }
 
 func hitIDs(res *bleve.SearchResult) []string {
@@ -431,7 +431,7 @@ func hitIDs(res *bleve.SearchResult) []string {
 
 func TestC06IndexPaging(t *testing.T) {
 	ev := Ev("C06")
-	checkPropN(t, "C06", 150, func(t *rapid.T) {
+	checkPropN(t, "C06", 300, func(t *rapid.T) {
 		c := BuildCorpus(t, CorpusOpts{Doc: DocGenOpts{Nums: SmallNums, Dates: c10Dates}, MaxSteps: 6})
 		g := QGen{NoFuzzy: true, Nums: SmallNums, Dates: c10Dates,
 			LeafKinds: []string{"all", "all", "term", "match", "prefix", "numrange"}}
